@@ -1334,6 +1334,17 @@ impl Ms {
                     if !h.check(!m_executed, &format!("C05/{kind:?}/execute/executed-twice"), || format!("proposal {id} executed a second time")) {
                         return false;
                     }
+                    // proposals executed through nested Execute messages were executed by the multisig itself, which
+                    // needs the configured executor's authority like any other caller
+                    if newly.len() > 1 {
+                        h.out.count("nested_executions_judged_for_executor_authority");
+                        let ms_addr = w.ms.to_string();
+                        if !h.check(w.authorised_executor(&ms_addr), &format!("C05/{kind:?}/execute/unauthorised-executor-admitted"), || {
+                            format!("proposals {:?} were executed by nested Execute calls sent by the multisig itself; executor setting {:?}", &newly[1..], w.executor)
+                        }) {
+                            return false;
+                        }
+                    }
                 }
             } else {
                 if m_executed {
@@ -2053,6 +2064,26 @@ impl Ms {
                         Act::Adv(25),
                         Act::ByStranger(Op::Execute { id: 1 }),
                         Act::ByStranger(Op::Close { id: 1 }),
+                    ],
+                );
+                true
+            }
+            // an executor is configured and a passed proposal tries to execute another one: the nested call comes
+            // from the multisig, which is neither a member nor the named executor
+            ("C05", 6) | ("C05", 7) => {
+                let executor = if h.idx == 6 { ExecCfg::Member } else { ExecCfg::Only(pool().actors[0].clone()) };
+                let over = Override { kind: Kind::Flex, voters: vec![(pool().actors[0].clone(), 3), (pool().actors[1].clone(), 2)], rule: Rule::Count(3), period: Duration::Height(20), executor: Some(executor), deposit: false, dep_cw20: None };
+                self.play(
+                    h,
+                    over,
+                    vec![
+                        Act::Adv(1),
+                        Act::Do(0, prop_op(vec![ping(1, 0, hist)])),
+                        Act::Do(0, prop_op(vec![ping(2, 0, hist), PMsg::SelfExecute(1)])),
+                        Act::ByStranger(Op::Execute { id: 2 }), // not authorised
+                        Act::Do(0, Op::Execute { id: 2 }),       // authorised, but the nested call is not
+                        Act::Do(0, Op::Execute { id: 1 }),
+                        Act::Do(0, Op::Execute { id: 2 }),       // nested Execute of an executed proposal: fails
                     ],
                 );
                 true
